@@ -133,15 +133,19 @@ fn gen_tree(src: &mut Src, depth: usize, universe: &[Res]) -> Tree {
     let leaf = depth >= 5 || src.chance(if depth == 0 { 2 } else { 7 }, 16);
     if leaf {
         let many = HUGE.with(|h| h.get());
-        let nw = src.pick(if many { 5 } else { 3 });
-        let nr = src.pick(if many { 10 } else { 3 });
+        let nw = src.pick(if many { 4 } else { 3 });
+        let nr = src.pick(if many { 16 } else { 3 });
         let writes = (0..nw).map(|_| universe[src.pick(universe.len())]).collect();
         let reads = (0..nr).map(|_| universe[src.pick(universe.len())]).collect();
         return Tree::Leaf { reads, writes };
     }
-    let fan = 1 + src.pick(6);
+    let fan = if depth == 0 && HUGE.with(|h| h.get()) {
+        5 + src.pick(2)
+    } else {
+        1 + src.pick(6)
+    };
     let kids: Vec<Tree> = (0..fan).map(|_| gen_tree(src, depth + 1, universe)).collect();
-    if src.chance(8, 16) {
+    if (depth == 0 && HUGE.with(|h| h.get())) || src.chance(8, 16) {
         Tree::Par(kids)
     } else {
         Tree::Seq(kids)
@@ -208,12 +212,23 @@ fn plant(src: &mut Src, tree: &mut Tree) -> Option<Plant> {
     if nodes.is_empty() {
         return None;
     }
-    let node = nodes[src.pick(nodes.len())].clone();
+    // huge-universe trees: prefer the root par node and its last child, where the children in
+    // front have accumulated the most distinct ids
+    let huge = HUGE.with(|h| h.get());
+    let node = if huge && nodes.iter().any(|n| n.is_empty()) && src.chance(12, 16) {
+        vec![]
+    } else {
+        nodes[src.pick(nodes.len())].clone()
+    };
     let n_children = match node_at(tree, &node) {
         Tree::Par(c) => c.len(),
         _ => return None,
     };
-    let j = 1 + src.pick(n_children - 1);
+    let j = if huge && node.is_empty() {
+        n_children - 1
+    } else {
+        1 + src.pick(n_children - 1)
+    };
     let (mut er, mut ew) = (BTreeSet::new(), BTreeSet::new());
     if let Tree::Par(c) = node_at(tree, &node) {
         for ch in &c[..j] {
@@ -239,7 +254,23 @@ fn plant(src: &mut Src, tree: &mut Tree) -> Option<Plant> {
     if cands.is_empty() {
         return None;
     }
-    let r = cands[src.pick(cands.len())];
+    // half of the time take the conflicting id from the child directly in front (its ids are the
+    // last ones any per-call bookkeeping of the node gets to see)
+    let near: Vec<Res> = if let Tree::Par(c) = node_at(tree, &node) {
+        let (r, w) = access(&c[j - 1]);
+        r.union(&w).cloned().filter(|x| cands.contains(x)).collect()
+    } else {
+        vec![]
+    };
+    // ... or (huge trees) from what the earlier children write: writes are looked at after reads
+    let late_writes: Vec<Res> = ew.iter().cloned().filter(|x| cands.contains(x)).collect();
+    let r = if huge && !late_writes.is_empty() && src.chance(10, 16) {
+        late_writes[late_writes.len() - 1 - src.pick(late_writes.len().min(3))]
+    } else if !near.is_empty() && src.chance(8, 16) {
+        near[src.pick(near.len())]
+    } else {
+        cands[src.pick(cands.len())]
+    };
     let as_write = if ew.contains(&r) { src.chance(8, 16) } else { true };
     let mut p = node.clone();
     p.push(j);
@@ -380,7 +411,7 @@ impl Prop for C16 {
         // 11 on each of the 8 types), so that a par node can see more than 64 distinct ids
         let huge = src.chance(2, 16);
         let universe: Vec<Res> = if huge {
-            let u = 60 + src.pick(37);
+            let u = 80 + src.pick(17);
             (0..u).map(|i| Res::new(i % 8, i / 8)).collect()
         } else {
             let u = 2 + src.pick(10);
